@@ -26,7 +26,7 @@ SPEC = {
         "design_ref": "DESIGN.md section 6 C16"},
     "streams": ["paths"],
     "witnesses": ["F3"],
-    "rule": ("deterministic matrix (8 fixed schemas, two of them with keys whose option string has adjacent / trailing dashes: a_, b__c, class_.enabled, dry__run, x {empty command line, two generated command lines, hand-made namespace} "
+    "rule": ("deterministic matrix (10 fixed schemas, one with sub-schemas created explicitly with env=False/True/str/default and registered by attribute and by item at every depth, one whose field and sub-schema keys are public members of Schema and of Config (names taken from dir() at generation time; random schemas get them with probability 0.3 and a random env setting with probability 0.5), two of them with keys whose option string has adjacent / trailing dashes: a_, b__c, class_.enabled, dry__run, x {empty command line, two generated command lines, hand-made namespace} "
              "+ 3 sub-schemas handed in directly) then seeded random schemas of depth <= 4 (identifier keys incl. trailing/double underscores, collision-free "
              "after the '.'/'_' -> '-' mapping; str/int/float/bool/any/list/dict/bytes/virtual/method leaves, nested "
              "schemas, config types; 10% keyed roots and 10% sub-schemas handed in directly for F40), each with missing / "
@@ -41,8 +41,12 @@ SPEC = {
                      "Python float(str) as a per-case table answered by the interpreter directly",
                      "Schema.__getitem__ creating sub-schemas for missing keys is observed as an outcome only; the harness "
                      "restores the field tables after every lookup"],
-    "assumptions": ["keys are ASCII identifiers that do not start with '_' and are not attributes of the Config class "
-                    "(`config.save` is the method, not a field named save): attribute access is outside the model there",
+    "assumptions": ["keys are ASCII identifiers that do not start with '_'; for a key that is a public attribute of the Config "
+                    "class (`config.save` is the method, not a field named save) chained ATTRIBUTE access / attribute walks "
+                    "are not checked (observed as the tag 'reserved'); schema lookup, enumeration, reference path, "
+                    "config[path], membership, dotted assignment and the parser are checked for such keys too; an "
+                    "InstanceMethodField is never given the name of a Config property (full_path: building the configuration "
+                    "raises AttributeError)",
                     "schemas are finite trees built through Schema attribute assignment (unique keys; a nested schema's own "
                     "key is the key it is registered under: hypothesis wf); non-dynamic schemas",
                     "option strings / paths do not collide after the '.'/'_' -> '-' mapping (hypothesis of C16_parser_options; "
